@@ -58,7 +58,7 @@ class PKI:
     """root -> aa -> n ATs, all keys in one backend (the issuing authority's view)."""
 
     def __init__(self, now, n_at=2, aa_psids=(PSID_CAM, PSID_DENM, PSID_VAM, 99), at_psids=(PSID_CAM, PSID_DENM, PSID_VAM, 99), name="good",
-                 root_psids="all", aa_app_psids=None, root_groups=None, handmade_aa=False):
+                 root_psids="all", aa_app_psids=None, root_groups=None, handmade_aa=False, at_validity=None):
         self.backend = PythonECDSABackend()
         self.now = now
         self.root = OwnCertificate.initialize_certificate(self.backend, root_tbs(now, f"root.{name}", psids=root_psids, groups=root_groups), None)
@@ -71,7 +71,10 @@ class PKI:
             self.aa = OwnCertificate(certificate=resign(d, self.backend, self.root.key_id), issuer=self.root, key_id=shell.key_id)
         else:
             self.aa = OwnCertificate.initialize_certificate(self.backend, aa_tbs(now, aa_psids, f"aa.{name}", app_psids=aa_app_psids), self.root)
-        self.ats = [OwnCertificate.initialize_certificate(self.backend, at_tbs(now, at_psids), self.aa) for _ in range(n_at)]
+        # at_validity: per ticket (age in s, duration) - tickets that are valid now but well into their validity period
+        av = at_validity or [None] * n_at
+        self.ats = [OwnCertificate.initialize_certificate(self.backend, at_tbs(now, at_psids) if av[i] is None else
+                                                          at_tbs(now, at_psids, t32(now) - av[i][0], av[i][1]), self.aa) for i in range(n_at)]
         if not handmade_aa:
             assert self.root.verify(self.backend) and self.aa.verify(self.backend) and all(a.verify(self.backend) for a in self.ats)
 
